@@ -27,7 +27,7 @@ def gen_attrs(rng, w, rich=True):
         kind = rng.choice(['dq', 'dq', 'sq', 'unq', 'bool', 'expr', 'ng', 'class', 'class', 'angle'])
         name = rng.choice(['id', 'data-x', 'href', 'title', ':bind', 'v-on:click', 'aria-label', 'xml:lang', '_x', 'a.b', 'data-type', ':type', 'xtype', 'src'])
         if kind == 'ng':
-            name = rng.choice(['*ngIf', '#ref', '[prop]', '(click)', '{...p}', '[(ngModel)]', '*'])
+            name = rng.choice(['*ngIf', '#ref', '[prop]', '(click)', '{...p}', '[(ngModel)]', '*', '@click', '@submit.prevent', '@'])
             kind = rng.choice(['dq', 'bool', 'bool'])
             if name == '{...p}':
                 kind = 'bool'
@@ -51,13 +51,14 @@ def gen_attrs(rng, w, rich=True):
                 body = rng.choice(['a', 'a b', 'foo  bar', ' a b ', 'a\tb\nc', '', 'x-1 y_2 z', 'a  ', 'foo\u3000bar baz', 'a\x0bb c', 'p\u2028q', 'x\x85y z', 'a\xa0b', 'é ü\u2003ö', 'a\rb', ' '.join('c%d' % k for k in range(rng.randint(5, 14)))]) if q else rng.choice(['a', 'foo-bar', 'item', 'a-very-long-class-name'])
                 val = q + body + ('}' if q == '{' else q)
             elif kind == 'dq':
-                val = '"%s"' % rng.choice(['a > b', '', 'x/y', '</div>', '<b>', "it's", 'a=b c', ' ', '/>', 'é ü', '{x}', '-->', '/a.js?type=min', 'text/x-template', 'type=text/html'])
+                val = '"%s"' % rng.choice(['a > b', '', 'x/y', '</div>', '<b>', "it's", 'a=b c', ' ', '/>', 'é ü', '{x}', '-->', '/a.js?type=min', 'text/x-template', 'type=text/html',
+                                            'c:\\', 'a\\', '\\\\', 'C:\\docs\\'])       # HTML strings have no backslash escapes
             elif kind == 'sq':
                 val = "'%s'" % rng.choice(['a>b', '"', '', 'x y', '</p>', '<!--'])
             elif kind == 'anglevalue':
                 val = rng.choice(['<%= cls %>', '<?php echo 1 ?>', '<b c>', '<T>'])
             elif kind == 'unq':
-                val = rng.choice(['abc', 'a-b', 'x:y', '1', 'a.b', '#x', 'a=b', '{{x}}', 'a&b', 'foo[0]'])
+                val = rng.choice(['abc', 'a-b', 'x:y', '1', 'a.b', '#x', 'a=b', '{{x}}', 'a&b', 'foo[0]', '/foo/bar', 'http://x.com/p', 'a/b', '../a.png', 'x//y', '/x'])      # (a value ending in `/` right before `>` would read as `/>`)
             else:
                 val = rng.choice(['{a > b}', '{x ? "<b>" : y}', '{{a:1}}', '{}', '{f("}")}', '{a/b}'])
             vs, ve = w.add(val)
